@@ -16,7 +16,7 @@ def usizeMax : Nat := 2 ^ 64
 def finalLen (mode : String) (a b : Nat) : Option Nat :=
   if mode = "new" ∨ mode = "unaligned" then some a
   else if mode = "push" ∨ mode = "extend" ∨ mode = "extendx" ∨ mode = "collect" then some (a + b)
-  else if mode = "resize" then some (max a b)
+  else if mode = "resize" ∨ mode = "resizes" then some (max a b)
   else if mode = "cap" then some b
   else none
 
